@@ -21,6 +21,55 @@ let texts_of_string s =   (* list of texts separated by ';' ; "" = empty list *)
   if s = "" then [] else List.map text_of_string (String.split_on_char ';' s)
 let string_of_texts l = String.concat ";" (List.map string_of_text l)
 
+(* JSON: prefix token stream separated by single spaces:
+   n | t | f | i<int> | s<text> | a<count> <items...> | o<count> <key text> <value> ... *)
+let parse_json (str : Stdlib.String.t) : json =
+  let toks = ref (String.split_on_char ' ' str) in
+  let next () = match !toks with [] -> failwith "json: eof" | x :: r -> toks := r; x in
+  let rec go () =
+    let tk = next () in
+    let rest = String.sub tk 1 (String.length tk - 1) in
+    match tk.[0] with
+    | 'n' -> JNull | 't' -> JBool true | 'f' -> JBool false
+    | 'i' -> JNum (z_of_int (int_of_string rest))
+    | 's' -> JStr (text_of_string rest)
+    | 'a' -> let n = int_of_string rest in JArr (List.init n (fun _ -> go ()))
+    | 'o' -> let n = int_of_string rest in
+      JObj (List.init n (fun _ -> let k = text_of_string (next ()) in let v = go () in (k, v)))
+    | _ -> failwith "json: token" in
+  go ()
+
+let rec print_json (sorted : bool) (j : json) : Stdlib.String.t =
+  match j with
+  | JNull -> "n" | JBool true -> "t" | JBool false -> "f"
+  | JNum z -> "i" ^ string_of_int (int_of_z z)
+  | JStr s -> "s" ^ string_of_text s
+  | JArr l -> String.concat " " (("a" ^ string_of_int (List.length l)) :: List.map (print_json sorted) l)
+  | JObj kvs ->
+    let kvs = List.map (fun (k, v) -> (List.map int_of_n k, v)) kvs in
+    let kvs = if sorted then List.sort (fun (a, _) (b, _) -> compare a b) kvs else kvs in
+    String.concat " " (("o" ^ string_of_int (List.length kvs)) ::
+      List.concat_map (fun (k, v) ->
+        [(if k = [] then "-" else String.concat "," (List.map string_of_int k)); print_json sorted v]) kvs)
+
+(* bank list: one entry per line: id, cc, code, bic ("null" or s<text>), primary, algo ("none" or text) *)
+let banks : entry list Lazy.t = lazy (
+  let path = try Sys.getenv "VERIF_BANKS" with Not_found -> "banks.tsv" in
+  let ic = open_in path in
+  let acc = ref [] in
+  (try
+     while true do
+       match String.split_on_char '\t' (input_line ic) with
+       | [i; cc; code; bic; prim; algo] ->
+         let bic = if bic = "null" then None else Some (text_of_string (String.sub bic 1 (String.length bic - 1))) in
+         let algo = if algo = "none" then None else Some (text_of_string algo) in
+         acc := x_mk_entry (n_of_int (int_of_string i)) (text_of_string cc) (text_of_string code) bic (prim = "1") algo :: !acc
+       | _ -> failwith "banks.tsv: bad line"
+     done
+   with End_of_file -> close_in ic);
+  List.rev !acc)
+let bank_arr : entry array Lazy.t = lazy (Array.of_list (Lazy.force banks))
+
 let exn_name = function
   | ESchwifty -> "SchwiftyException" | EInvalidLength -> "InvalidLength"
   | EInvalidStructure -> "InvalidStructure" | EInvalidCountryCode -> "InvalidCountryCode"
@@ -80,6 +129,40 @@ let dispatch fn a =
     let comps = List.map (fun k -> out string_of_text (x_bban_component cc bb k)) (texts_of_string a.(1)) in
     String.concat " / " ([string_of_text cc; string_of_text (x_iban_dd s); string_of_text bb] @ comps
        @ [out string_of_text (x_iban_from_bban cc bb true false)])
+  | "merge_dicts" ->
+    (match parse_json a.(0), parse_json a.(1) with
+     | JObj l, JObj r -> print_json true (JObj (x_merge_dicts l r))
+     | _ -> "NOT-OBJECTS")
+  | "parse_v2" -> out (fun l -> print_json true (JArr l)) (x_parse_v2 (parse_json a.(0)))
+  | "registry_get" ->
+    (* args: pairs (is_v2 flag, json) in file-name order *)
+    let n = Array.length a / 2 in
+    let files = List.init n (fun i -> (bool_of_string' a.(2 * i), parse_json a.(2 * i + 1))) in
+    out (function RNone -> "NONE" | RList l -> print_json true (JArr l) | RDict o -> print_json true (JObj o))
+      (x_registry_get files)
+  | "candidates" -> out string_of_texts (x_candidates (Lazy.force banks) (t 0) (t 1))
+  | "from_bank_code" -> out string_of_text (x_from_bank_code (Lazy.force banks) (t 0) (t 1))
+  | "bic_domestic" -> string_of_texts (x_domestic_bank_codes (Lazy.force banks) (t 0)) ^ " exists=" ^ string_of_bool' (x_bic_exists (Lazy.force banks) (t 0))
+  | "bic_names" | "bic_short_names" ->
+    String.concat "," (List.map (fun i -> string_of_int (int_of_n i)) (x_bank_ids (Lazy.force banks) (t 0)))
+  | "iban_bank_lookup" ->
+    (match x_iban_from_bban (t 0) (t 1) false false with
+     | Ok s ->
+       let cc = x_iban_cc s and bb = x_iban_bban s in
+       let bank = (match x_bban_bank (Lazy.force banks) cc bb with
+                   | Ok (Some en) -> string_of_int (int_of_n en.e_id) | Ok None -> "none"
+                   | Err e -> "ERR " ^ exn_name e | Crash c -> "CRASH " ^ pyexc_name c) in
+       let bic = (match x_bban_bic (Lazy.force banks) cc bb with
+                  | Ok (Some b) -> string_of_text b | Ok None -> "none"
+                  | Err e -> "ERR " ^ exn_name e | Crash c -> "CRASH " ^ pyexc_name c) in
+       "OK bank=" ^ bank ^ " bic=" ^ bic
+     | Err e -> "ERR " ^ exn_name e | Crash c -> "CRASH " ^ pyexc_name c)
+  | "n_banks" -> string_of_int (Array.length (Lazy.force bank_arr))
+  | "spec_wf_bank" ->
+    let i = int_of_string a.(0) in
+    let arr = Lazy.force bank_arr in
+    if i < 0 || i >= Array.length arr then "0" else string_of_bool' (s_wf_bank arr.(i))
+  | "spec_wf_country" -> string_of_bool' (s_wf_country (t 0))
   | "spec_iso_ok" -> string_of_bool' (s_iso_ok (t 0))
   | "spec_check_digits" -> string_of_text (s_check_digits (t 0) (t 1))
   | "spec_conforms" -> string_of_bool' (s_conforms (t 0) (t 1))
